@@ -326,6 +326,16 @@ def check_request(W, rec, rng):
         case["another_request_object_first"] = True
     r = R(env)
     CONFIGURED["mem"] = memv
+    if rng.random() < 0.3 and not lying and (mcl is None or with_cl):
+        # history: something upstream asked for the raw body first (a logging middleware, a signature check); the limits on
+        # fields and parts are limits on what the form parser builds, whatever is already cached.  (Where only
+        # max_content_length bounds a terminated stream, get_data() is the known silent drain of C09 - not repeated here.)
+        try:
+            r.get_data()
+            rec.observe("request_cases_with_the_raw_body_read_first")
+            case["get_data_first"] = True
+        except (RequestEntityTooLarge, ClientDisconnected):
+            pass
     try:
         form = [(a, v) for a, v in r.form.items(multi=True)]
         files = [(a, f.read()) for a, f in r.files.items(multi=True)]
